@@ -1019,6 +1019,15 @@ def fixed_values(sc):
                 ("jx.dicts", {"a": [], "b": [{"key": b"\xc3", "value": b"x"}], "c": [], "d": [], "e": [], "f": [], "g": []}, "F1", "dictionary key that is not valid UTF-8"),
                 ("jx.dicts", {"a": [], "b": [{"key": b"\\", "value": b"x"}], "c": [], "d": [], "e": [], "f": [], "g": []}, "ok", "dictionary key that JSON escapes (F2, repaired in 540af2db)"),
                 ("jx.dicts", {"a": [], "b": [{"key": b"ok", "value": b"\xff\\\"\n"}], "c": [], "d": [], "e": [], "f": [], "g": []}, "ok", "dictionary value with escapes / bad UTF-8")]
+    if inst_by_name(sc, "jx.dictVec"):
+        # map dictionaries with several entries whose values own memory (a reader must not alias one entry's value with another's)
+        out += [("jx.dictVec", {"d": [{"key": b"a", "value": [1, 2, 3]}, {"key": b"b", "value": [4, 5]}, {"key": b"c", "value": []}]}, "ok", "dictionary of vectors, 3 entries"),
+                ("jx.dictVecS", {"d": [{"key": 1, "value": [b"a", b"b", b"c"]}, {"key": 2, "value": [b"x", b"y"]}]}, "ok", "int-keyed dictionary of string vectors"),
+                ("jx.dictDict", {"d": [{"key": b"a", "value": [{"key": b"p", "value": 1}, {"key": b"q", "value": 2}]},
+                                       {"key": b"b", "value": [{"key": b"r", "value": 3}]}]}, "ok", "dictionary of dictionaries"),
+                ("jx.dictStruct", {"d": [{"key": 1, "value": {"v": [1, 2, 3], "s": b"x"}}, {"key": 2, "value": {"v": [4], "s": b"y"}}],
+                                   "e": [{"key": b"a", "value": [1, 2]}, {"key": b"b", "value": [3]}, {"key": b"c", "value": None}]}, "ok",
+                 "dictionary of structs holding vectors, dictionary of Maybe vectors")]
     return out
 
 
